@@ -296,7 +296,7 @@ VARIANTS = [{'recv_mode': r, 'send_mode': s, 'style': y}
             for r in ('immediate', 'suspend') for s in ('immediate', 'suspend') for y in ('inline', 'sub')]
 X_ACTIONS = ['XSrvArrive', 'XPumpLoop', 'XPumpGot', 'XPumpCheck', 'XPumpWake', 'XPumpCancelled', 'XAppRecv',
              'XRecvLoop', 'XRecvWake', 'XRecvRawRet', 'XCancelRecv', 'XAppSend', 'XSendRet', 'XAppClose',
-             'XCloseFinish']
+             'XCloseSent', 'XCloseFinish']
 
 
 def _signature(clause, case, trace, at):
